@@ -205,6 +205,21 @@ def handle : Handler
       let o : Out := ⟨ov, orow, ocol⟩
       some (if fp == o.values && pr == predict o false && prc == predict o true then "holds"
             else "fails returned-values-differ")) "bad-args"
+  -- scale invariance on the implementation's own outputs: values(c·A) = values(A) (all weights multiplied by c > 0)
+  | "c14.spec_scale", [tol, v1, r1, c1, v2, r2, c2] => some <| Option.getD (do
+      let tol ← rat? tol
+      let v1 ← ratList? v1
+      let r1 ← optRatList? r1
+      let c1 ← optRatList? c1
+      let v2 ← ratList? v2
+      let r2 ← optRatList? r2
+      let c2 ← optRatList? c2
+      let closeL (a b : List Rat) : Bool := a.length == b.length && decide (HeatSpec.supDist a b ≤ tol)
+      let closeO (a b : Option (List Rat)) : Bool := match a, b with
+        | none, none => true
+        | some x, some y => closeL x y
+        | _, _ => false
+      some (if closeL v1 v2 && closeO r1 r2 && closeO c1 c2 then "holds" else "fails scaled-graph-differs")) "bad-args"
   -- the same temperatures given as array, list and dict
   | "c14.spec_forms", [o1, o2, o3] =>
       some (if o1 == o2 && o2 == o3 then "holds" else "fails forms-differ")
